@@ -112,6 +112,19 @@ func (f *FuncVC) applyContract(st *State, x *ssa.Call, con *Contract, args []*Va
 	// requires clause is then proved for an arbitrary value, an ensures clause
 	// is assumed for that one value only - sound, weaker than the quantifier)
 	for _, a := range con.Anys {
+		// a caller that declares the same variable passes its own (arbitrary) value on
+		same := false
+		if f.con != nil {
+			for _, b := range f.con.Anys {
+				if b == a {
+					same = true
+				}
+			}
+		}
+		if same {
+			anyAtCall[a[0]] = f.anyVal(a[0], a[1])
+			continue
+		}
 		c := f.sc.fresh("anycall." + a[0])
 		f.sc.declare(c, "Int")
 		v := &Val{K: KInt, T: c}
